@@ -33,7 +33,7 @@ Mismatch == {x \in {"panic", "ok", "mapped", "prot", "locked", "dontdump", "secr
      [] x = "late-primitive" -> Len(ev.late) > 0}
 
 Step == \/ (ev.op \in {"New", "CreateRandom"} /\ DoCreate(ev.op))
-        \/ (ev.op \in {"WithBytes", "WithBytesFunc", "Reader"} /\ DoRead(ev.op))
+        \/ (ev.op \in ReadOps /\ DoRead(ev.op))
         \/ (ev.op = "Close" /\ DoClose)
 TCall == /\ IsEv("call")
          /\ Step /\ last'.F = FOf
